@@ -3,10 +3,11 @@
 (* of its three members carry a skip marker x spelling of the marker) next to an annotated         *)
 (* neighbour and an un-annotated decoy. Prints the program and the definitions P requires.          *)
 EXTENDS Program, TLC, Json
-CONSTANTS Kinds, Annotations, Nestings, SkipSets, SkipSpellings
+CONSTANTS Kinds, Annotations, Nestings, SkipSets, SkipSpellings, Modes
 VARIABLE c
 
-Init == c \in [kind : Kinds, annotation : Annotations, nesting : Nestings, skips : SkipSets, spelling : SkipSpellings]
+\* mode: single-file output or folder output (one module per crate); the required definitions are the same
+Init == c \in [kind : Kinds, annotation : Annotations, nesting : Nestings, skips : SkipSets, spelling : SkipSpellings, mode : Modes]
 Next == UNCHANGED c
 
 HasMembers(k) == k \in {"struct", "unit_enum", "tagged_enum"}
